@@ -157,6 +157,23 @@ CHECKS = {
         note="Trusted: TLC, PyYAML, the harness's YAML-to-tree projection. Only function-scoped keys are pushed down; "
              "doxygen on a namespace and library-level format fields are excluded (they also govern file-level text).",
     ),
+    "C07": dict(
+        level="model_checking",
+        design="DESIGN.md section 4 / C07",
+        technique="TLA+ spec Registry (process-wide registries abstracted to contributor sets, run = Initialize; "
+                  "Generate; Emit) model-checked with TLC; in-process run histories (registry digests from a probe, "
+                  "file digests) replayed against fresh-process references by TLC (Trace_Registry); perturbation "
+                  "pairs (hash seed, cwd, environment, populated output directory) compared",
+        text="TLC checks for all histories of <= 3 runs over 4 libraries that, with every registry re-created at the "
+             "start of a run, no run starts with data of another library. Conformance: every ordered pair, every "
+             "repetition and sampled triples over 4 (thorough 8) corpus libraries mixing C and C++ are run in one "
+             "Python process through the real main; each run's files must be byte-identical to the same library in "
+             "a fresh process, and the verdict names the registries whose digest differed when generation started; "
+             "corpus and generated wide libraries are run under pairs of PYTHONHASHSEED values, working directories, "
+             "environments and with a pre-populated output directory; outputs are scanned for host name and clock.",
+        note="Trusted: TLC, the registry digest (canonical dump), file digests. *.log and *.json debugging files "
+             "are not compared. A differing registry digest alone is reported as a suspect, never as a violation.",
+    ),
 }
 
 ALL = ["C%02d" % i for i in range(1, 19)]
